@@ -11,7 +11,7 @@ RULE = ('one case = the real selector actor (start_node_selector + DCAwareSelect
 ASSUMPTIONS = ['the per-level result cache (2 s) does not expire within a case unless the case says so (sel-expire sleeps 2.1 s)',
                'sel-set layouts (fed to the selector directly) have unique addresses; layouts WITHOUT the local node, the empty layout and the state before the first update are exercised (degenerate cases) but the property oracle only speaks about layouts that contain the local node in its own data centre (what the membership layer installs)']
 TRUSTED_BASE = ['correspondence: dcharness (real selector actor through NodeSelectorHandle) vs dcdriver (Datacake.Selector model); hook H3 records the random DC choice']
-THEOREM_NOTE = 'Datacake.Selector.selectN / selectNodes / setNodes / getNodes / dcLayout (Model/Selector.lean); Props/C15c: dcLayout_wf (the map the watcher installs is well-formed for EVERY snapshot: WF is discharged, not assumed), wired_selection_sound, local_dc_present, wired_selection_sound_of_snapshot (no hypothesis left but the snapshot's own shape), legacy_wiring_duplicates'
+THEOREM_NOTE = 'Datacake.Selector.selectN / selectNodes / setNodes / getNodes / dcLayout (Model/Selector.lean); Props/C15c: dcLayout_wf (the map the watcher installs is well-formed for EVERY snapshot: WF is discharged, not assumed), wired_selection_sound, local_dc_present, wired_selection_sound_of_snapshot (no hypothesis left but the shape of the snapshot), legacy_wiring_duplicates'
 LEVELS = ['none', 'one', 'two', 'three', 'quorum', 'localquorum', 'all', 'eachquorum']
 JOBS = 8
 
@@ -52,16 +52,20 @@ def gen_wired(rng, idx):
     data centres; the local node 0 at address 100 included, as the membership layer guarantees) and hands the data-centre map to
     the real selector actor, which is then asked for selections."""
     local_dc = rng.below(3)
-    lines = ['case %d node' % idx, 'mem-init 0 100 %d' % local_dc]
+    # the local node id is not always the smallest: a node that restarted under a NEW id can still see its OLD, smaller id listed
+    # at its own address (possibly in another data centre)
+    self_id = rng.choice([0, 0, 3, 9])
+    lines = ['case %d node' % idx, 'mem-init %d 100 %d' % (self_id, local_dc)]
     shared = rng.chance(1, 3)
     if rng.chance(1, 6):
         # a selection that reaches the selector before the watcher installed the first membership
         lines.append('sel-get ' + rng.choice(LEVELS))
     for _ in range(rng.range(1, 3)):
         n_others = rng.choice([0, 1, 1, 2, 3, 3, 4, 5])
-        ms = ['0:100@%d' % local_dc]
+        ms = ['%d:100@%d' % (self_id, local_dc)]
         for k in range(n_others):
-            mid = k + 1
+            mid = k + 1 if k + 1 < self_id or self_id == 0 else k + 2
+            if mid == self_id: mid += 20
             # one case in three draws addresses from a small pool: two member ids at ONE address (a peer that came back under a
             # new id while the failure detector still lists the old one), sometimes the local node's own address
             a = rng.choice([100, 101, 101, 102, 103]) if shared else 100 + mid + 10 * rng.below(2)
@@ -182,21 +186,23 @@ def canon(line, out):
 
 def oracle(case, impl):
     bad = list(real_oracle(case, impl))
-    layout, local, local_dc = {}, None, None
+    layout, local, local_dc, self_id = {}, None, None, None
     for line, out in zip(case, impl):
         t = line.split()
         if out.startswith(('crash', 'panic', 'timeout')):
             bad.append('%s: %s' % (line, out)); continue
         if t[0] == 'sel-init': local, local_dc = int(t[1]), int(t[2])
-        elif t[0] == 'mem-init': local, local_dc, layout = int(t[2]), int(t[3]), {}
+        elif t[0] == 'mem-init': self_id, local, local_dc, layout = int(t[1]), int(t[2]), int(t[3]), {}
         elif t[0] == 'mem-snap':
-            # the membership in force: one entry per ADDRESS (two member ids at one address are one peer), in member-id order
-            layout, seen = {}, set()
+            # the membership in force: one entry per ADDRESS (two member ids at one address are one peer), in member-id order;
+            # the local address belongs to the LOCAL member, whatever other ids still claim it
+            layout, seen = {}, {local}
             for m in sorted(t[1].split(','), key=lambda m: int(m.split(':')[0])):
                 a, d = m.split('@')
-                a = int(a.split(':')[1])
-                if a in seen: continue
-                seen.add(a)
+                mid, a = int(a.split(':')[0]), int(a.split(':')[1])
+                if mid != self_id:
+                    if a in seen: continue
+                    seen.add(a)
                 layout.setdefault(int(d), []).append(a)
         elif t[0] == 'sel-set': layout = parse_layout(t[1])
         elif t[0] == 'sel-get':
